@@ -445,22 +445,19 @@ func (r *Reader) readReflect(v interface{}) error {
 			return err
 		}
 
-		// 创建切片并读取每个元素
-		slice := reflect.MakeSlice(rv.Type(), int(length), int(length))
+		// 长度来自输入，不能据此一次性分配（4 字节的输入即可要求分配数十 GB）：
+		// 预分配量以剩余字节数为上限，其余随实际读到的元素增长；元素先读入临时变量，全部成功后才赋给目标
+		capacity := int(length)
+		if remaining := r.RemainingSize(); capacity > remaining {
+			capacity = remaining
+		}
+		slice := reflect.MakeSlice(rv.Type(), 0, capacity)
 		for i := 0; i < int(length); i++ {
-			elem := slice.Index(i)
-			if elem.CanAddr() {
-				if err := r.Read(elem.Addr().Interface()); err != nil {
-					return err
-				}
-			} else {
-				// 对于不可寻址的元素，创建临时变量
-				elemPtr := reflect.New(rv.Type().Elem())
-				if err := r.Read(elemPtr.Interface()); err != nil {
-					return err
-				}
-				elem.Set(elemPtr.Elem())
+			elemPtr := reflect.New(rv.Type().Elem())
+			if err := r.Read(elemPtr.Interface()); err != nil {
+				return err
 			}
+			slice = reflect.Append(slice, elemPtr.Elem())
 		}
 		rv.Set(slice)
 		return nil
